@@ -612,6 +612,20 @@ func L2Errors() []MethodCase {
 		m.HTTP.Responses = []Resp{{Error: "e_a", Status: 422, Headers: []Map{{"code", "X-Code"}}}}
 		out = append(out, MethodCase{M: m, Types: []*TypeDef{errT()}})
 	}
+	// same status, same type, DIFFERENT response mappings: the second error carries an
+	// attribute in a header, so client dispatch on the error name is needed to decode it
+	{
+		m := mk(map[string]string{"level": "method", "type": "object-shared", "status": "shared", "shape": "mixed-mappings"})
+		m.Errors = []ErrorDef{{Name: "e_a", Type: User("ErrT")}, {Name: "e_b", Type: User("ErrT")}, {Name: "e_c", Type: User("ErrT")}}
+		m.HTTP.Responses = []Resp{{Error: "e_a", Status: 422}, {Error: "e_b", Status: 422, Headers: []Map{{"code", "X-Code"}}}, {Error: "e_c", Status: 422, Headers: []Map{{"msg", "X-Msg"}}}}
+		out = append(out, MethodCase{M: m, Types: []*TypeDef{errT()}})
+	}
+	{
+		m := mk(map[string]string{"level": "method", "type": "default", "status": "shared", "shape": "mixed-mappings"})
+		m.Errors = []ErrorDef{{Name: "e_a"}, {Name: "e_b"}, {Name: "e_c", Temporary: true}}
+		m.HTTP.Responses = []Resp{{Error: "e_a", Status: 409}, {Error: "e_b", Status: 409, Headers: []Map{{"message", "X-Message"}}}, {Error: "e_c", Status: 409}}
+		out = append(out, MethodCase{M: m})
+	}
 	// primitive error type
 	{
 		m := mk(map[string]string{"level": "method", "type": "primitive", "status": "distinct"})
@@ -953,4 +967,87 @@ func (s *Spec) ViewAttrs(typeName, view string) (attrs []string, sub map[string]
 		}
 	}
 	return nil, nil, false
+}
+
+// L1ValidationPairs exposes cross-talk between the validations of two attributes of one
+// payload/result: ordered pairs over a reduced keyword menu, and pairs of attributes sharing one
+// alias type (or one user type) where only one of them adds attribute-level validations.
+func L1ValidationPairs(side string) []MethodCase {
+	var out []MethodCase
+	n := 0
+	add := func(attrs []attrAt, defs []*TypeDef, feat map[string]string) {
+		name := fmt.Sprintf("m%d", n)
+		n++
+		var m *Method
+		if side == "payload" {
+			m = PayloadMethod(name, attrs)
+		} else {
+			m = ResultMethod(name, attrs, 200)
+		}
+		feat["family"] = "L1-validation-pair-" + side
+		m.Feat = feat
+		out = append(out, MethodCase{M: m, Types: defs})
+	}
+	menu := validMenu()
+	pick := func(names ...string) []validEntry {
+		var l []validEntry
+		for _, nme := range names {
+			for _, ve := range menu {
+				if ve.Name == nme {
+					l = append(l, ve)
+				}
+			}
+		}
+		return l
+	}
+	red := pick("enum_string", "minlen_string", "pattern_string", "min_int", "max_int")
+	locs := []string{LocBody, LocQuery}
+	if side == "result" {
+		locs = []string{LocBody, LocHeader}
+	}
+	for _, x := range red {
+		for _, y := range red {
+			for _, loc := range locs {
+				add([]attrAt{{A("aa", WithV(x.Base, x.V)), loc, true}, {A("bb", WithV(y.Base, y.V)), loc, false}}, nil,
+					map[string]string{"valid": x.Name + "+" + y.Name, "pos": "attribute+attribute", "loc": loc, "req": "required+optional"})
+			}
+		}
+	}
+	// shared alias: alias carries its own rule, one attribute adds another rule
+	aliasS := &TypeDef{Name: "ShS", Kind: "alias", Base: WithV(P(KString), &Valid{MaxLen: I(8)})}
+	aliasI := &TypeDef{Name: "ShI", Kind: "alias", Base: WithV(P(KInt), &Valid{Min: F(0)})}
+	extraS := []*Valid{{Enum: []any{"basic", "pro"}}, {Pattern: "^[a-c]+$"}, {MinLen: I(2)}}
+	extraI := []*Valid{{Max: F(5)}, {Enum: []any{1, 5}}}
+	for _, loc := range locs {
+		for i, ex := range extraS {
+			for _, first := range []bool{true, false} {
+				a1, a2 := A("aa", WithV(User("ShS"), ex)), A("bb", User("ShS"))
+				if !first {
+					a1, a2 = A("aa", User("ShS")), A("bb", WithV(User("ShS"), ex))
+				}
+				add([]attrAt{{a1, loc, true}, {a2, loc, true}}, []*TypeDef{aliasS},
+					map[string]string{"valid": fmt.Sprintf("shared-alias-string-extra%d-first=%v", i, first), "pos": "alias+attribute", "loc": loc, "req": "required+required"})
+			}
+		}
+		for i, ex := range extraI {
+			for _, first := range []bool{true, false} {
+				a1, a2 := A("aa", WithV(User("ShI"), ex)), A("bb", User("ShI"))
+				if !first {
+					a1, a2 = A("aa", User("ShI")), A("bb", WithV(User("ShI"), ex))
+				}
+				add([]attrAt{{a1, loc, true}, {a2, loc, false}}, []*TypeDef{aliasI},
+					map[string]string{"valid": fmt.Sprintf("shared-alias-int-extra%d-first=%v", i, first), "pos": "alias+attribute", "loc": loc, "req": "required+optional"})
+			}
+		}
+	}
+	// three attributes of one alias, the middle one restricted
+	add([]attrAt{{A("aa", User("ShS")), LocBody, false}, {A("bb", WithV(User("ShS"), &Valid{Enum: []any{"basic", "pro"}})), LocBody, false}, {A("cc", User("ShS")), LocBody, false}},
+		[]*TypeDef{aliasS}, map[string]string{"valid": "shared-alias-string-middle", "pos": "alias+attribute", "loc": LocBody, "req": "optional"})
+	// shared user type nested twice, the type's field validated; plus array of the alias
+	inner := &TypeDef{Name: "ShInner", Kind: "type", Attrs: []*Attr{A("fa", WithV(P(KInt), &Valid{Min: F(1)})), A("fb", User("ShS"))}, Required: []string{"fa"}}
+	add([]attrAt{{A("aa", User("ShInner")), LocBody, true}, {A("bb", ArrT(User("ShInner"))), LocBody, false}, {A("cc", WithV(User("ShS"), &Valid{Pattern: "^[a-c]+$"})), LocBody, false}},
+		[]*TypeDef{aliasS, inner}, map[string]string{"valid": "shared-user-type", "pos": "nested+array+alias", "loc": LocBody, "req": "mixed"})
+	add([]attrAt{{A("aa", ArrT(User("ShS"))), LocBody, true}, {A("bb", WithV(User("ShS"), &Valid{Enum: []any{"basic", "pro"}})), LocBody, false}},
+		[]*TypeDef{aliasS}, map[string]string{"valid": "shared-alias-array+attr", "pos": "array-element+attribute", "loc": LocBody, "req": "required+optional"})
+	return out
 }
